@@ -107,7 +107,7 @@ def replay (j : Json) : R Verdict := do
       pf := ("C10", s!"a well-formed spec document was rejected ({(fieldD imp "rej").compress})") :: pf
   let kindV := if !pf.isEmpty then "PROPFAIL" else if dis.isSome then "DISAGREE" else "ok"
   let what := match pf.reverse, dis with | (_, w) :: _, _ => w | [], some d => d | [], none => ""
-  return { case, kind := kindV, props := (pf.map (·.1)).eraseDups, what, tags, size := 1,
+  return { case, kind := kindV, props := (pf.map (·.1)).eraseDups, what, tags, size := 1, dis := dis.getD "",
            fails := pf.reverse.map (fun (p, w) => p ++ ": " ++ w) }
 
 end Driver.SpecReplay
